@@ -477,7 +477,7 @@ func check(cfg *genesis.GenesisConfig) (err error, panicv interface{}) {
 }
 
 var perturbKinds = []string{"balance+1", "balance-1", "supply+1", "supply-1", "pillar-amount", "fusion-amount", "undeclared-token",
-	"token-for-nobody", "swap-balance", "nil-section", "drop-block", "drop-balance-entry", "null-amount"}
+	"token-for-nobody", "swap-balance", "nil-section", "drop-block", "drop-balance-entry", "null-amount", "negative-balance-compensated"}
 
 // perturb applies one single-entry perturbation in place. ok=false: not applicable to this
 // configuration. vacuous names the contract whose block is absent when the perturbation can only
@@ -505,6 +505,43 @@ func perturb(c *pbt.C, cfg *genesis.GenesisConfig, kind string) (descr string, o
 		return e.b, e.z, true
 	}
 	switch kind {
+	case "negative-balance-compensated":
+		// two entries of one token: one goes negative, the other takes the difference, the signed sum stays what the
+		// declared supply says (an account cannot hold a negative amount: the built state cannot equal this)
+		type ent struct {
+			b *genesis.GenesisBlockConfig
+			z types.ZenonTokenStandard
+		}
+		byZts := map[types.ZenonTokenStandard][]ent{}
+		var zs []types.ZenonTokenStandard
+		for _, b := range blocks {
+			if types.IsEmbeddedAddress(b.Address) {
+				continue
+			}
+			for _, z := range sortedZts(b.BalanceList) {
+				if len(byZts[z]) == 0 {
+					zs = append(zs, z)
+				}
+				byZts[z] = append(byZts[z], ent{b, z})
+			}
+		}
+		var cand []types.ZenonTokenStandard
+		for _, z := range zs {
+			if len(byZts[z]) >= 2 {
+				cand = append(cand, z)
+			}
+		}
+		if len(cand) == 0 {
+			return "", false, ""
+		}
+		z := cand[c.Pick("perturb.negzts", len(cand))]
+		l := byZts[z]
+		i := c.Pick("perturb.neg.i", len(l))
+		j := (i + 1 + c.Pick("perturb.neg.j", len(l)-1)) % len(l)
+		d := new(big.Int).Add(l[i].b.BalanceList[z], big.NewInt(int64(c.Int("perturb.neg.d", 1, 1000))))
+		l[i].b.BalanceList[z] = new(big.Int).Sub(l[i].b.BalanceList[z], d)
+		l[j].b.BalanceList[z] = new(big.Int).Add(l[j].b.BalanceList[z], d)
+		return fmt.Sprintf("balance of %v in %v made %v, the difference added to %v", l[i].b.Address, z, l[i].b.BalanceList[z], l[j].b.Address), true, ""
 	case "balance+1":
 		b, z, found := pickEntry(false)
 		if !found {
